@@ -118,12 +118,16 @@ func (c *Ctx) c16primSphere() {
 	}
 	reach := c.Rng.Float64() * 1.3 // beyond the rim one time in four: misses
 	target := ct.Add(off.Normalized().Scale(r * reach))
-	scale := 30.
-	if c.Rng.Intn(4) == 0 {
-		scale = r * 0.5 // origin inside the sphere: the second root
-		c.Note("prims.sphere.origin-near")
+	o, d, ok := c.c16aim(target, 30)
+	if c.Rng.Intn(3) == 0 { // origin inside the sphere: the nearer root is behind the origin, the farther one is reported
+		in := vector3.New(c.Rng.NormFloat64(), c.Rng.NormFloat64(), c.Rng.NormFloat64())
+		if in.Length() > 1e-9 {
+			o = ct.Add(in.Normalized().Scale(r * 0.95 * c.Rng.Float64()))
+			d = target.Sub(o)
+			ok = d.Length() >= 1e-9
+			c.Note("prims.sphere.origin-inside")
+		}
 	}
-	o, d, ok := c.c16aim(target, scale)
 	if !ok {
 		return
 	}
